@@ -92,6 +92,7 @@ type c14HandlerOut struct {
 	Traced tracer.VerifHandlerOut `json:"traced"`
 	Plain  tracer.VerifHandlerOut `json:"plain"`
 	Dec    [][3]string            `json:"dec"`
+	Skip   bool                   `json:"skip,omitempty"`
 }
 
 // c14Handler1 runs the scripted handler once (through TracingHandler when traced).
@@ -117,6 +118,7 @@ func c14Handler(in c14HandlerIn) c14HandlerOut {
 		}
 	}
 	out.Dec = c14DecTable(written, []string{in.Resp.CCE, in.Resp.GE})
+	out.Skip = c14ReuseSensitive(written, []string{in.Resp.CCE, in.Resp.GE})
 	return out
 }
 
@@ -128,7 +130,8 @@ type c14RTIn struct {
 }
 type c14RTOut struct {
 	tracer.VerifRoundTripOut
-	Dec [][3]string `json:"dec"`
+	Dec  [][3]string `json:"dec"`
+	Skip bool        `json:"skip,omitempty"`
 }
 
 func c14RoundTrip(in c14RTIn) c14RTOut {
@@ -137,6 +140,7 @@ func c14RoundTrip(in c14RTIn) c14RTOut {
 	var out c14RTOut
 	out.VerifRoundTripOut = tracer.VerifRoundTrip(in.Req.headers(), reqBody, in.Fail, in.Status, in.Resp.headers(), respBody, actions)
 	out.Dec = c14DecTable(in.Resp.body(), []string{in.Resp.CCE, in.Resp.GE})
+	out.Skip = c14ReuseSensitive(in.Resp.body(), []string{in.Resp.CCE, in.Resp.GE})
 	return out
 }
 
@@ -159,6 +163,8 @@ type c14TraceOut struct {
 	// two encoding headers, what the real decompressor of that encoding makes of the payload:
 	// [name, payload-hex, content-hex] or [name, payload-hex, "!"] when it fails.
 	Dec [][3]string `json:"dec"`
+	// Skip: the body makes a reused decompressor instance answer differently from a fresh one
+	Skip bool `json:"skip,omitempty"`
 }
 
 func c14Headers(in c14TraceIn) http.Header {
@@ -250,6 +256,59 @@ func c14DecTable(body []byte, names []string) [][3]string {
 	return out
 }
 
+// c14ReuseSensitive tells whether some decompressor, reused over the end-stream payloads of
+// body in order (as the tracer reuses its one instance), answers differently from a fresh
+// instance per payload. Model and specification take the decompressor as a *function* of the
+// payload (reusability of instances is property C20's subject), so such bodies are set aside.
+func c14ReuseSensitive(body []byte, names []string) bool {
+	var all, flagged [][]byte
+	for len(body) >= 5 {
+		flags := body[0]
+		n := int(binary.BigEndian.Uint32(body[1:5]))
+		body = body[5:]
+		if n > len(body) {
+			break
+		}
+		payload := body[:n]
+		body = body[n:]
+		if n == 0 || flags&0x82 == 0 {
+			continue
+		}
+		all = append(all, payload)
+		if flags&1 != 0 {
+			flagged = append(flagged, payload)
+		}
+	}
+	if len(all) < 2 {
+		return false
+	}
+	for _, name := range names {
+		comp, known := tracer.VerifCompressionOf(name)
+		if !known {
+			continue
+		}
+		for _, seq := range [][][]byte{all, flagged} {
+			d, err := compression.GetDecompressor(comp)
+			if err != nil {
+				continue
+			}
+			for _, payload := range seq {
+				fresh, okFresh := c14Decompress(name, payload)
+				var out bytes.Buffer
+				okReused := d.Reset(bytes.NewBuffer(append([]byte(nil), payload...))) == nil
+				if okReused {
+					_, err := out.ReadFrom(d)
+					okReused = err == nil
+				}
+				if okFresh != okReused || (okFresh && !bytes.Equal(fresh, out.Bytes())) {
+					return true
+				}
+			}
+		}
+	}
+	return false
+}
+
 func c14Unhex(ss []string) [][]byte {
 	out := make([][]byte, len(ss))
 	for i, s := range ss {
@@ -305,6 +364,7 @@ func c14Trace(_ *gen.Ctx, in c14TraceIn) c14TraceOut {
 		body = append(body, ch...)
 	}
 	out.Dec = c14DecTable(body, []string{in.CCE, in.GE})
+	out.Skip = in.Side == "resp" && c14ReuseSensitive(body, []string{in.CCE, in.GE})
 	return out
 }
 
